@@ -144,15 +144,14 @@ fn decide(cx: &mut Ctx, family: &str, ph: bool, sig: &[u8; 64], msg: &[u8], pk: 
 /// range where a canonicity test looks), found by grinding seeds: a verifier that pre-screens the encoding byte-wise
 /// (canonical form, "looks small-order", "looks like the identity") can be wrong on keys that random seeds hit with
 /// probability 2^-15 .. 2^-19 each
-fn ground_keys(cx: &mut Ctx) {
+pub fn grind_structured_keys(cx: &mut Ctx, per_shard: usize, salt: u64, cap_per_class: usize) -> (Vec<([u8; 32], [u8; 32], &'static str)>, std::collections::HashMap<&'static str, usize>) {
     use curve25519_dalek::edwards::EdwardsPoint;
     use curve25519_dalek::scalar::Scalar;
-    let per_shard = cx.tier.pick(0usize, 250_000, 4_000_000);
-    let mut rng = cx.rng.fork(0xC06_0000 + cx.shard as u64);
+    let mut rng = cx.rng.fork(salt + cx.shard as u64);
     let mut found: std::collections::HashMap<&'static str, usize> = std::collections::HashMap::new();
+    let mut out = Vec::new();
     let mut seed: [u8; 32] = rng.arr();
-    for i in 0..per_shard {
-        // next seed: increment as a little-endian counter (cheap, distinct)
+    for _ in 0..per_shard {
         for b in seed.iter_mut() {
             *b = b.wrapping_add(1);
             if *b != 0 {
@@ -167,6 +166,8 @@ fn ground_keys(cx: &mut Ctx) {
         let e = EdwardsPoint::mul_base(&Scalar::from_bytes_mod_order(a)).compress().to_bytes();
         let class: Option<&'static str> = if e[31] & 0x7f == 0x7f && e[30] == 0xff {
             Some(if e[0] >= 0xed { "top_15_bits_one,low_byte>=0xed" } else { "top_15_bits_one" })
+        } else if e[31] & 0x7f == 0x7f && e[0] >= 0xed {
+            Some("top_7_bits_one,low_byte>=0xed")
         } else if e[31] & 0x7f == 0 && e[30] == 0 {
             Some("top_15_bits_zero")
         } else if e[0] == 0 && e[1] == 0 {
@@ -179,9 +180,18 @@ fn ground_keys(cx: &mut Ctx) {
         let Some(class) = class else { continue };
         let n = found.entry(class).or_insert(0);
         *n += 1;
-        if *n > 24 {
-            continue;
+        if *n <= cap_per_class {
+            out.push((seed, e, class));
         }
+    }
+    (out, found)
+}
+
+fn ground_keys(cx: &mut Ctx) {
+    let per_shard = cx.tier.pick(0usize, 250_000, 4_000_000);
+    let (keys, found) = grind_structured_keys(cx, per_shard, 0xC06_0000, 24);
+    let mut rng = cx.rng.fork(0xC06_1000 + cx.shard as u64);
+    for (i, (seed, e, class)) in keys.into_iter().enumerate() {
         // the reference must derive the same key, otherwise the grinder is wrong
         let (npk, nsk) = na::sign_seed_keypair(&seed);
         if npk != e {
